@@ -371,7 +371,7 @@ pub fn main(env: &Env) -> i32 {
     ];
     let seed = env.seed;
     let thorough = env.thorough;
-    let n = if thorough { env.scaled(150_000) } else { env.scaled(6000) };
+    let n = if thorough { env.scaled(1_500_000) } else { env.scaled(6000) };
     let corpus = gen::corpus(thorough);
     let uni = UniCfg { lines_full: !thorough, cap: if thorough { 2500 } else { 4000 }, compound: false };
     rep.rule = format!(
